@@ -70,7 +70,10 @@ class Outcome:
         self.ret, self.state = ret, state
 
     def __eq__(self, o):
-        return self.ret == o.ret and self.state == o.state
+        return isinstance(o, Outcome) and self.ret == o.ret and self.state == o.state
+
+    def __ne__(self, o):
+        return not self.__eq__(o)
 
     def __repr__(self):
         return f'returns {self.ret!r}, leaves {self.state!r}'
@@ -92,8 +95,8 @@ def _visible(model):
 
 def r8_map_summaries(rep, facts, rid='C16/R9'):
     R = rep.rule(rid, 'every keyed operation of Table and InlineTable does what the same operation does on a plain ordered map: evaluated on a container holding `a`, a placeholder '
-                 'left by mutable indexing under `ghost`, and `b`, for the keys `a`, `ghost`, `b` and a new one — the return value and the entries visible afterwards (placeholders '
-                 'do not count) equal those of the reference operation', floor=75)
+                 'left by mutable indexing under `ghost`, `b` and `c`, for the keys `a`, `ghost`, `b`, `c` and a new one — the return value and the entries visible afterwards (placeholders '
+                 'do not count) equal those of the reference operation', floor=95)
     NEW = 'NEW'
     for ty, mkitem, short in (('toml_edit::table::Table', lambda t: ('ctor', I + 'Value', (fval(t),)) if t != 'b' else ('ctor', I + 'Table', (_table_model('toml_edit::table::Table', ()),)) , 'Table'),
                               ('toml_edit::inline_table::InlineTable', lambda t: ('ctor', I + 'Value', (fval(t),)), 'InlineTable')):
@@ -105,9 +108,9 @@ def r8_map_summaries(rep, facts, rid='C16/R9'):
             b_item = mkitem('b')
             if not inline:
                 b_item[2][0][2]['tagged'] = ('elem', 'b')
-            return _table_model(ty, (('a', mkitem('a')), ('ghost', NONE_ITEM), ('b', b_item)))
+            return _table_model(ty, (('a', mkitem('a')), ('ghost', NONE_ITEM), ('b', b_item), ('c', mkitem('c'))))
         new_arg = (lambda: fval(NEW)) if inline else (lambda: ('ctor', I + 'Value', (fval(NEW),)))
-        ref0 = [('a', 'a'), ('b', 'b')]
+        ref0 = [('a', 'a'), ('b', 'b'), ('c', 'c')]
 
         def ref_insert(q):
             st = list(ref0)
@@ -148,7 +151,7 @@ def r8_map_summaries(rep, facts, rid='C16/R9'):
             if not facts.has_body(d):
                 continue
             b = facts.body(d)
-            for q in ('a', 'ghost', 'b', 'new'):
+            for q in ('a', 'ghost', 'b', 'c', 'new'):
                 model = fresh()
                 it = PlaceInterp(Evaluator(facts), {'fmt'})
                 try:
@@ -162,12 +165,12 @@ def r8_map_summaries(rep, facts, rid='C16/R9'):
                     continue
                 want = ref(q)
                 rep.check(R, f'{short}::{meth}|{q}', got == want, f'{got}',
-                          f'`{d}` with the key `{q}`' + (' (a placeholder left by mutable indexing)' if q == 'ghost' else '') + f' {got}; a plain ordered map holding a, b {want}', facts.loc(b))
+                          f'`{d}` with the key `{q}`' + (' (a placeholder left by mutable indexing)' if q == 'ghost' else '') + f' {got}; a plain ordered map holding a, b, c {want}', facts.loc(b))
         # the entry API
         d = f'{ty}::entry'
         if facts.has_body(d):
             b = facts.body(d)
-            for q in ('a', 'ghost', 'b', 'new'):
+            for q in ('a', 'ghost', 'b', 'c', 'new'):
                 model = fresh()
                 it = PlaceInterp(Evaluator(facts), {'fmt'})
                 try:
@@ -193,10 +196,10 @@ def r8_map_summaries(rep, facts, rid='C16/R9'):
                 w = ref_or_insert(q)
                 want = Outcome(('Occupied' if any(k == q for k, _ in ref0) else 'Vacant', w.ret), w.state)
                 rep.check(R, f'{short}::entry|{q}', got == want, f'{got}',
-                          f'`{d}("{q}").or_insert(NEW)`' + (' (a placeholder left by mutable indexing)' if q == 'ghost' else '') + f' {got}; a plain ordered map holding a, b {want}', facts.loc(b))
+                          f'`{d}("{q}").or_insert(NEW)`' + (' (a placeholder left by mutable indexing)' if q == 'ghost' else '') + f' {got}; a plain ordered map holding a, b, c {want}', facts.loc(b))
         # whole-container operations
         for meth, args, want in (('clear', lambda it: [], []), ('retain', lambda it: [('pyfn', lambda k, v: keyname(k) != 'a')],
-                                                                                [('b', 'b')]),
+                                                                                [('b', 'b'), ('c', 'c')]),
                                  ('sort_values', lambda it: [], sorted(ref0))):
             d = f'{ty}::{meth}'
             if not facts.has_body(d):
@@ -217,3 +220,197 @@ def r8_map_summaries(rep, facts, rid='C16/R9'):
                 rep.incomplete(R, f'{short}::{meth}', f'cannot evaluate `{d}`: {ex}', facts.loc(b))
                 continue
             rep.check(R, f'{short}::{meth}', got == want, f'leaves {got}', f'`{d}` leaves {got}; a plain ordered map is left with {want}', facts.loc(b))
+
+
+def _find(facts, d):
+    """the body of an inherent method, also when it is generic (`Array::push::<V>`)"""
+    if facts.has_body(d):
+        return facts.body(d)
+    cands = [x for x in facts.bodies if x.startswith(d) and x[len(d):len(d) + 3] == '::<']
+    return facts.body(cands[0]) if len(cands) == 1 else None
+
+
+def r9b_toml_map_summaries(rep, facts, rid='C16/R9b'):
+    R = rep.rule(rid, 'every keyed operation of toml::Map does what the same operation does on the reference map of this configuration (key-sorted by default, insertion-ordered under '
+                 'preserve_order): evaluated on a map built by inserting `c`, `a`, `b` in this order, for the keys `a`, `b`, `c` and a new one (`aa`, which sorts between them) — the return value and the '
+                 'entries in iteration order afterwards equal those of the reference operation', floor=28)
+    if 'toml' not in facts.crates:
+        return
+    sorted_ = 'preserve_order' not in set(facts.crates['toml'].get('features', []))
+    Vp = 'toml::value::Value::'
+    val = lambda n: ('ctor', Vp + 'Integer', (('elem', n),))
+    M = 'toml::map::Map::<alloc::string::String, toml::value::Value>::'
+    NEW = 'NEW'
+    ORDER = ('c', 'a', 'b')
+    ref0 = sorted((k, k) for k in ORDER) if sorted_ else [(k, k) for k in ORDER]
+
+    def model():
+        return ('struct', 'toml::map::Map', {'map': MapObj([(k, val(k)) for k in ORDER], sorted_)})
+    state = lambda m: [(keyname(k), tag_of(v)) for k, v in m[2]['map'].pairs]
+
+    def ref_insert(q):
+        st = list(ref0)
+        for i, (k, v) in enumerate(st):
+            if k == q:
+                st[i] = (k, NEW)
+                return Outcome(v, st)
+        st.append((q, NEW))
+        return Outcome(None, sorted(st) if sorted_ else st)
+
+    def ref_remove(q):
+        hit = [v for k, v in ref0 if k == q]
+        return Outcome(hit[0] if hit else None, [(k, v) for k, v in ref0 if k != q])
+
+    def ref_get(q, mode='value'):
+        hit = [(k, v) for k, v in ref0 if k == q]
+        return Outcome(bool(hit) if mode == 'truth' else (hit[0] if mode == 'pair' else hit[0][1]) if hit else (False if mode == 'truth' else None), list(ref0))
+    tvo = lambda r: tag_of(unopt(r)) if unopt(r) is not None else None
+    ops = (('insert', lambda q: [q, val(NEW)], tvo, ref_insert), ('remove', lambda q: [q], tvo, ref_remove), ('get', lambda q: [q], tvo, ref_get), ('get_mut', lambda q: [q], tvo, ref_get),
+           ('get_key_value', lambda q: [q], lambda r: (keyname(unopt(r)[0]), tag_of(unopt(r)[1])) if unopt(r) is not None else None, lambda q: ref_get(q, 'pair')),
+           ('contains_key', lambda q: [q], lambda r: deref(r), lambda q: ref_get(q, 'truth')))
+    for meth, mkargs, view, ref in ops:
+        b = _find(facts, M + meth)
+        if b is None:
+            rep.incomplete(R, f'Map::{meth}', f'`{M}{meth}` not found')
+            continue
+        for q in ('a', 'b', 'c', 'aa'):
+            m = model()
+            try:
+                r = PlaceInterp(Evaluator(facts)).apply_fn(b, [m] + mkargs(q))
+                got = Outcome(view(r), state(m))
+            except EvalPanic as ex:
+                rep.bad(R, f'Map::{meth}|{q}', f'`Map::{meth}` panics for the key `{q}`: {ex}', facts.loc(b))
+                continue
+            except (Unanalysable, TypeError, IndexError, KeyError) as ex:
+                rep.incomplete(R, f'Map::{meth}|{q}', f'cannot evaluate `Map::{meth}` for the key `{q}`: {ex}', facts.loc(b))
+                continue
+            want = ref(q)
+            rep.check(R, f'Map::{meth}|{q}', got == want, f'{got}', f'`toml::Map::{meth}` with the key `{q}` {got}; the reference {"sorted" if sorted_ else "insertion-ordered"} map {want}', facts.loc(b))
+    # entry(q).or_insert(NEW)
+    b = _find(facts, M + 'entry')
+    ors = [d for d in facts.bodies if d.startswith('toml::map::Entry') and d.endswith('::or_insert')]
+    if b is not None and len(ors) == 1:
+        for q in ('a', 'b', 'c', 'aa'):
+            m = model()
+            it = PlaceInterp(Evaluator(facts))
+            try:
+                ent = it.apply_fn(b, [m, q])
+                kind = last_seg(deref(ent)[1])
+                r = it.apply_fn(facts.body(ors[0]), [ent, val(NEW)])
+                got = Outcome((kind, tag_of(r)), state(m))
+            except EvalPanic as ex:
+                rep.bad(R, f'Map::entry|{q}', f'`Map::entry("{q}").or_insert(..)` panics: {ex}', facts.loc(b))
+                continue
+            except (Unanalysable, TypeError, IndexError, KeyError) as ex:
+                rep.incomplete(R, f'Map::entry|{q}', f'cannot evaluate `Map::entry("{q}").or_insert(..)`: {ex}', facts.loc(b))
+                continue
+            hit = [v for k, v in ref0 if k == q]
+            want = Outcome(('Occupied', hit[0]), list(ref0)) if hit else Outcome(('Vacant', NEW), sorted(ref0 + [(q, NEW)]) if sorted_ else ref0 + [(q, NEW)])
+            rep.check(R, f'Map::entry|{q}', got == want, f'{got}', f'`toml::Map::entry("{q}").or_insert(NEW)` {got}; the reference map {want}', facts.loc(b))
+    else:
+        rep.incomplete(R, 'Map::entry', 'entry / Entry::or_insert of toml::Map not found')
+    for meth, args, want in (('clear', [], []), ('retain', [('pyfn', lambda k, v: keyname(k) != 'a')], [(k, v) for k, v in ref0 if k != 'a']), ('len', [], len(ref0)), ('is_empty', [], False)):
+        b = _find(facts, M + meth)
+        if b is None:
+            continue
+        m = model()
+        try:
+            r = PlaceInterp(Evaluator(facts)).apply_fn(b, [m] + args)
+            got = deref(r) if meth in ('len', 'is_empty') else state(m)
+        except (EvalPanic, Unanalysable, TypeError, IndexError, KeyError) as ex:
+            rep.incomplete(R, f'Map::{meth}', f'cannot evaluate `Map::{meth}`: {ex}', facts.loc(b))
+            continue
+        rep.check(R, f'Map::{meth}', got == want and type(got) is type(want), f'{got}', f'`toml::Map::{meth}` gives {got}; the reference map gives {want}', facts.loc(b))
+
+
+def r9c_sequence_summaries(rep, facts, rid='C16/R9c'):
+    R = rep.rule(rid, 'every positional operation of Array and ArrayOfTables does what the same operation does on a plain vector: evaluated on a container of three elements '
+                 '(push, insert, replace, remove, get, get_mut, len, is_empty, clear, retain; in range and out of range) — the return value and the elements afterwards equal those of '
+                 'the reference operation, and the operation panics exactly where the vector operation is documented to panic', floor=24)
+    if 'toml_edit' not in facts.crates:
+        return
+    dec = lambda: ('struct', 'toml_edit::repr::Decor', {'prefix': opt_none, 'suffix': opt_none})
+
+    def arr():
+        return ('struct', 'toml_edit::array::Array', {'values': VecObj([('ctor', I + 'Value', (fval(i),)) for i in range(3)]), 'trailing': ('opaque',), 'trailing_comma': False, 'decor': dec(), 'span': opt_none})
+
+    def tbl(t):
+        return ('struct', 'toml_edit::table::Table', {'items': MapObj(), 'tagged': ('elem', t), 'implicit': False, 'dotted': False, 'decor': dec(), 'doc_position': opt_none, 'span': opt_none})
+
+    def aot():
+        return ('struct', 'toml_edit::array_of_tables::ArrayOfTables', {'values': VecObj([('ctor', I + 'Table', (tbl(i),)) for i in range(3)]), 'span': opt_none})
+    tags = lambda m: [tag_of(x) for x in m[2]['values'].items]
+    PANIC = 'panics'
+    base = [0, 1, 2]
+
+    def ref(op, *a):
+        st = list(base)
+        try:
+            if op == 'push':
+                st.append('N')
+                return Outcome(None, st)
+            if op == 'insert':
+                if not 0 <= a[0] <= len(st):
+                    return PANIC
+                st.insert(a[0], 'N')
+                return Outcome(None, st)
+            if op == 'replace':
+                if not 0 <= a[0] < len(st):
+                    return PANIC
+                old = st[a[0]]
+                st[a[0]] = 'N'
+                return Outcome(old, st)
+            if op == 'remove':
+                if not 0 <= a[0] < len(st):
+                    return PANIC
+                return Outcome(st.pop(a[0]), st)
+            if op in ('get', 'get_mut'):
+                return Outcome(st[a[0]] if 0 <= a[0] < len(st) else None, st)
+            if op == 'len':
+                return Outcome(len(st), st)
+            if op == 'is_empty':
+                return Outcome(not st, st)
+            if op == 'clear':
+                return Outcome(None, [])
+            if op == 'retain':
+                return Outcome(None, [x for x in st if x != 1])
+        except IndexError:
+            return PANIC
+    for short, ty, mk, newv, removes_value in (('Array', 'toml_edit::array::Array', arr, lambda: fval('N'), True), ('ArrayOfTables', 'toml_edit::array_of_tables::ArrayOfTables', aot, lambda: tbl('N'), False)):
+        if ty not in facts.adts:
+            continue
+        plan = [('push', 'push', []), ('push_formatted', 'push', []), ('insert', 'insert', [1]), ('insert', 'insert', [3]), ('insert', 'insert', [4]), ('insert_formatted', 'insert', [0]),
+                ('replace', 'replace', [1]), ('replace', 'replace', [3]), ('replace_formatted', 'replace', [2]), ('remove', 'remove', [0]), ('remove', 'remove', [2]), ('remove', 'remove', [3]),
+                ('get', 'get', [1]), ('get', 'get', [3]), ('get_mut', 'get_mut', [2]), ('get_mut', 'get_mut', [3]), ('len', 'len', []), ('is_empty', 'is_empty', []), ('clear', 'clear', []), ('retain', 'retain', [])]
+        for meth, op, idx in plan:
+            b = _find(facts, f'{ty}::{meth}')
+            if b is None:
+                continue
+            m = mk()
+            args = list(idx)
+            if op in ('push', 'insert', 'replace'):
+                args.append(newv())
+            if op == 'retain':
+                args.append(('pyfn', lambda v: tag_of(v) != 1))
+            want = ref(op, *idx)
+            label = f'{short}::{meth}' + (f'({idx[0]})' if idx else '')
+            try:
+                r = PlaceInterp(Evaluator(facts)).apply_fn(b, [m] + args)
+                rv = deref(r)
+                if op in ('get', 'get_mut'):
+                    rv = tag_of(unopt(r)) if unopt(r) is not None else None
+                elif op in ('replace',):
+                    rv = tag_of(rv)
+                elif op == 'remove':
+                    rv = tag_of(rv) if removes_value else (base[idx[0]] if want != PANIC else None)      # ArrayOfTables::remove returns nothing: judged on the state
+                elif op in ('len', 'is_empty'):
+                    pass
+                else:
+                    rv = None
+                got = Outcome(rv, tags(m))
+            except EvalPanic as ex:
+                got = PANIC
+            except (Unanalysable, TypeError, IndexError, KeyError) as ex:
+                rep.incomplete(R, label, f'cannot evaluate `{ty}::{meth}`: {ex}', facts.loc(b))
+                continue
+            rep.check(R, label, got == want, f'{got}', f'`{ty}::{meth}`' + (f' at index {idx[0]}' if idx else '') + f' on three elements {got}; a plain vector {want}', facts.loc(b))
